@@ -73,14 +73,16 @@ def _dedupe(ds):
     return out
 
 
-def _mk(w, name, letters, lens, dims, how="dims"):
+def _mk(w, name, letters, lens, dims, how="dims", layout=0):
     from flodym import FlodymArray
 
     shape = tuple(lens[l] for l in letters)
     vals = w.arr(name, shape)
     if not letters and how == "scalar":
         return FlodymArray.scalar(vals[()]), vals
-    return FlodymArray(dims=make_dimset(letters, lens, dims), values=vals.copy()), vals
+    from svx.configs import relayout
+
+    return FlodymArray(dims=make_dimset(letters, lens, dims), values=relayout(vals.copy(), layout)), vals
 
 
 def _pow(w, a, b):
@@ -112,10 +114,11 @@ def run(cfg, w):
     dims = {l: make_dim(l, n) for l, n in lens.items()}
     xd = cfg["xd"]
     op = cfg["op"]
-    x, X = _mk(w, "x", xd, lens, dims, cfg.get("how", "dims"))
+    lay = sum(map(ord, cfg["key"])) % 3  # memory layout of the operands varies with the configuration
+    x, X = _mk(w, "x", xd, lens, dims, cfg.get("how", "dims"), layout=lay)
     if cfg["h"] == "binop":
         yd = cfg["yd"]
-        y, Y = _mk(w, "y", yd, lens, dims)
+        y, Y = _mk(w, "y", yd, lens, dims, layout=(lay + 1) % 3)
         if op in ("add", "sub", "min", "max"):
             out = [l for l in xd if l in yd]
         elif op in ("mul", "div"):
